@@ -94,6 +94,7 @@ func main() {
 CONST_GROUPS = {
     "cipher": "internal/security/cipher",
     "license": "internal/security/license",
+    "mqtt": "internal/network/mqtt",
 }
 
 
